@@ -46,7 +46,7 @@ def run(rep, tier):
     from props import ctrl_obl
     from engine import E2
     e = E2(rep, tier)
-    sizes = [(6, 3), (8, 3), (5, 4)] if tier == "quick" else [(6, 3), (8, 3), (5, 4), (10, 4), (16, 3), (6, 5)]
+    sizes = [(8, 3), (6, 4)] if tier == "quick" else [(8, 3), (6, 4), (10, 4), (16, 3), (6, 5)]
     rep.bounds["(segments,history)_mir"] = [list(x) for x in sizes]
     ctrl_obl.evaluator_obligations(e, sizes, real=True)
     ctrl_obl.evaluator_obligations(e, [(2, 2), (3, 2)], real=False)
